@@ -475,32 +475,36 @@ def all_bits() -> list[tuple[int, ...]]:
 
 
 def run(ctx: Any) -> None:
+    pa.set_cpu_count(1)
+    pa.set_io_thread_count(1)
     logging.getLogger("falcon").setLevel(logging.CRITICAL)
     logging.getLogger("vgi_rpc").setLevel(logging.CRITICAL)
     thorough = ctx.tier == "thorough"
     bits = all_bits()
     prefixes = ["", "/vgi", "/a/b"]
-    n_kinds = None if thorough else (6 if ctx.deep else 2)
+    n_kinds = 8 if thorough else (6 if ctx.deep else 2)
     thirds = [0, 1, 9, 2] if thorough else [ctx.seed % 12]  # (config-without-backend, zstd-disabled) in all four combinations
     n = 0
     for third in thirds:
         cfgs = [make_cfg(b, idx, ctx.seed, (third + idx) % 12 if not thorough else third) for idx, b in enumerate(bits)]
         pre = model_batch(ctx, cfgs)
         for idx, cfg in enumerate(cfgs):
-            run_cfg(ctx, cfg, prefixes[(idx + third) % 3], False, n_kinds, pre[idx])
+            # thorough: every route kind on every 4th combination (rotating with the third-state), 8 sampled kinds otherwise
+            nk = None if (thorough and (idx + third) % 4 == 0) else n_kinds
+            run_cfg(ctx, cfg, prefixes[(idx + third) % 3], False, nk, pre[idx])
             n += 1
     ctx.exhaustive = True
     ctx.note("configurations", n)
     ctx.note("setting_combinations", len(bits))
     # every route kind (pages and CORS included) on a spread of configurations
-    step = 1 if thorough else 37
+    step = 8 if thorough else 37
     for idx in range(ctx.seed % step, len(bits), step):
         cfg = make_cfg(bits[idx], idx, ctx.seed + 1, idx % 12)
         run_cfg(ctx, cfg, prefixes[idx % 3], True, None)
     # foreign header sets
     rng = ctx.rng
     sets = []
-    for _ in range(ctx.budget(400, 20000)):
+    for _ in range(ctx.budget(400, 8000)):
         hdrs = {}
         for name in PROBED:
             if rng.random() < 0.6:
@@ -511,7 +515,7 @@ def run(ctx: Any) -> None:
         for v in VALUE_POOL:
             sets.append({name.lower(): v})
     foreign_probes(ctx, sets)
-    primitives(ctx, ctx.budget(300, 20000))
+    primitives(ctx, ctx.budget(300, 8000))
 
 
 def replay(ctx: Any, case: dict[str, Any]) -> None:
